@@ -1,4 +1,6 @@
 import Vanguard.Model.Run
+import Vanguard.Lemmas.Chunking
+import Vanguard.Gen.Facts
 /-!
   C10 — The message-size limit bounds buffering on every path.
 
@@ -13,6 +15,11 @@ import Vanguard.Model.Run
   * the whole-response buffer / buffer-to-measure (`limitWriter`) never holds more than `L` bytes:
     the invariant `buf.length ≤ L` is preserved by every write, and a write that would exceed it is
     reported as `resource_exhausted`.
+  * the body of a client without envelopes that is buffered to be measured (`io.Copy` through
+    `hardLimitReader`) is accepted **iff it has at most `L` bytes**, for every segmentation: `L` bytes pass,
+    `L + 1` bytes are `resource_exhausted` (`unenveloped_body_bounded`, `unenveloped_body_boundary` - the
+    pinned tree accepted `L + 1`, fix fefc337), and the message reader never returns more than `L` bytes
+    (`unenveloped_message_bounded`).
   Partial: `bytes.Buffer` capacity growth and allocator behaviour are not modelled.  `oracleC10`
   checks on the implementation that clean scenarios whose every representation fits are never
   rejected for size and that a message with an inflated or re-encoded form above the limit on a
@@ -84,5 +91,62 @@ theorem response_buffer_bounded (w : World) (st : St) (b buf : Bytes)
 example (o : Op) (wasCompressed : Bool) (out : Bytes) (h : out.length = o.conf.maxMsg) :
     ∃ env, requestEnvelope o out wasCompressed = .ok env :=
   (reencoded_size_checked o out wasCompressed).2 (by omega)
+
+/-- **A buffered request body is bounded**: whatever the segmentation, reading a whole body under the
+    limit succeeds only with at most `limit` bytes, and then returns exactly the body. -/
+theorem unenveloped_body_bounded (w : World) (limit fuel : Nat) (st : St) (hf : st.src.data.length + 1 < fuel)
+    (hok : (copyAllLimited w false limit fuel st 0 []).2.1 = none) :
+    (copyAllLimited w false limit fuel st 0 []).1 = st.src.data ∧ st.src.data.length ≤ limit := by
+  have h := copyAllLimited_spec w limit fuel st 0 [] hf (Nat.zero_le _)
+  simp only [Nat.zero_add, List.nil_append] at h
+  have hle : st.src.data.length ≤ limit := by
+    rw [h.1] at hok
+    unfold copySpecErr at hok
+    split at hok
+    · cases hok
+    · omega
+  exact ⟨h.2 hle, hle⟩
+
+/-- **The boundary is exact**: a body of `limit + 1` bytes is `resource_exhausted`, a body of
+    `limit` bytes that ends cleanly is accepted - for every segmentation of the body. -/
+theorem unenveloped_body_boundary (w : World) (limit fuel : Nat) (st : St) (hf : st.src.data.length + 1 < fuel) :
+    (st.src.data.length = limit + 1 → (copyAllLimited w false limit fuel st 0 []).2.1 = some (.rpc 8)) ∧
+    (st.src.data.length = limit → st.src.ending ≠ .unexpected → (copyAllLimited w false limit fuel st 0 []).2.1 = none) := by
+  have h := copyAllLimited_spec w limit fuel st 0 [] hf (Nat.zero_le _)
+  simp only [Nat.zero_add] at h
+  constructor
+  · intro hl; rw [h.1]; unfold copySpecErr; rw [if_pos (by omega)]
+  · intro hl he
+    rw [h.1]; unfold copySpecErr
+    rw [if_neg (by omega)]
+    cases hend : st.src.ending <;> simp_all
+
+/-- The one message of a client without envelopes, as `readRequestMessage` returns it, has at most
+    `L` bytes (when the request declares no length; a declared length above `L` is refused up front). -/
+theorem unenveloped_message_bounded (w : World) (st : St) (data : Bytes) (c : Bool)
+    (hce : st.op.clientEnveloper = none) (hcl : st.op.contentLen = -1)
+    (hok : (readRequestMessage w st false).1 = .ok (data, c)) : data.length ≤ st.op.conf.maxMsg := by
+  unfold readRequestMessage at hok
+  simp only [hce, hcl] at hok
+  have hcond : ((-1 : Int) != -1 && decide ((-1 : Int) > (st.op.conf.maxMsg : Int))) = false := by simp
+  simp only [hcond, Bool.false_eq_true, if_false, beq_self_eq_true, if_true] at hok
+  have hsp := unenveloped_body_bounded w st.op.conf.maxMsg st.src.fuel st (by have := Source.fuel_ge st.src; omega)
+  generalize copyAllLimited w false st.op.conf.maxMsg st.src.fuel st 0 [] = r at hok hsp
+  obtain ⟨d, e, s1, p⟩ := r
+  simp only at hok hsp
+  cases e with
+  | some err => simp at hok
+  | none =>
+    obtain ⟨hd, hl⟩ := hsp rfl
+    simp only at hok
+    split at hok
+    · simp at hok
+    · simp only [Except.ok.injEq, Prod.mk.injEq] at hok
+      rw [← hok.1, hd]; exact hl
+
+/-- **Tie to the source**: the limit `envelopingReader.prepareNext` hands to the reader through which it
+    buffers a body of undeclared length is, in the repository's source as read on this run, the one of
+    the model (`maxMsgBufferBytes + 0`; the pinned tree had `+ 1`). -/
+theorem source_buffered_body_limit_is_model (m : Nat) : bufferedBodyLimit m = m + Gen.bufferedBodyLimitExtra := rfl
 
 end Vanguard.C10
